@@ -53,7 +53,14 @@ RULE = ("case = dictionary (variables, records and arrays over all 19 numeric ty
         "(typed like element 1), addressed by sub-index through every path. Stray responses on the client's own "
         "channel (8 kinds: upload/download/segment responses, aborts) arrive at every moment the client is not "
         "waiting: before an op, between write and read-back, right after the k-th response of a running "
-        "(segmented) transfer, before an abandoned upload, before the final reads. Oracle: remote.raw == v, "
+        "(segmented) transfer, before an abandoned upload, before the final reads. Late answers (inline mode): the "
+        "node's answer to a read or write of object B is kept back until the client has timed out, and reaches the "
+        "client inside a later op on another object A (other index, other sub-index of the same record, or both) - "
+        "right before the answer to that op's 1st..9th request frame, i.e. after the client discarded what was "
+        "stale; the later op is a read of A, or a write of A with its read-back; then the op is repeated "
+        "undisturbed (and B is written and checked again when the slow request was a write). There a transfer may "
+        "fail with SdoCommunicationError, but one that reports success must have moved the right value (read == "
+        "value written last; node holds exactly the encoding). Oracle: remote.raw == v, "
         "local.raw == v, data_store bytes == independent CiA 301 "
         "encoding; each thread reads back only its own values; at the end every entry still reads as written last; "
         "in cases where all nodes were created from ONE "
@@ -70,7 +77,12 @@ ASSUMPTIONS = [
     "strings carry no trailing NUL (decode_raw documents stripping them); REAL32 values are binary32-representable; "
     "REAL32 NaNs are quiet ones",
     "a response-like frame on the client's own channel counts as unrelated traffic only while the client has no "
-    "request outstanding (the library discards such frames before its next request); NMT commands in the drawn "
+    "request outstanding (the library discards such frames before its next request); the one exception are the "
+    "late-answer histories: there the frame is the node's own, genuine answer to the client's earlier request for "
+    "ANOTHER object (it carries that object's index/sub-index or is a download/segment confirmation), the "
+    "disturbed transfer may fail with SdoCommunicationError, and a late answer for the very same object is not "
+    "used with a write in between (SDO has no sequence numbers: it cannot be told from a fresh one); the time-out "
+    "of the slow request is certain (its answer is kept back), no wait depends on speed; NMT commands in the drawn "
     "noise address nodes that do not take part (an NMT command to a participating node is not unrelated)",
     "the 'Record.Member' spelling is not used where it is ambiguous (record name containing '.', or an object "
     "carrying the qualified name itself); undeclared array elements have no name and are addressed by sub-index",
@@ -147,11 +159,14 @@ def make_network_class():
         baton = None
         deferred = None       # baton mode with deferred delivery: callable that delivers what waits on the bus
         after_send = None     # inline mode: callable(can_id) run when the send (and its inline delivery) is over
+        before_send = None    # inline mode: callable(can_id) run right before the frame goes out
 
         def send_message(self, can_id, data, remote=False):
             t = getattr(_tls, "index", None)
             if self.baton is not None and t is not None:
                 self.baton.yield_point(t)
+            if self.before_send is not None:
+                self.before_send(can_id)
             r = super().send_message(can_id, data, remote)
             if self.baton is not None and t is not None and self.deferred is not None:
                 # the frame waits on the bus; other threads may send theirs before anything is delivered
@@ -301,6 +316,112 @@ def check_value(tag, dt, v, remote_var, local_var, local_node, index, sub, D, be
         bad("local-readback", f"{rc.NAMES[dt]} wrote {v!r}, local side reads {loc!r}")
 
 
+def late_answer(hub, net_c, remote, local, ent, e, op, v, nid, last, tag, D):
+    """The node answers one request too late: the client has given up (time-out) and the answer reaches the
+    client during a LATER transfer - after the client has sent the `at`-th request frame of that transfer's
+    op and before the node's answer to that frame. The later transfer concerns another object.
+
+    The client cannot be blamed for failing the disturbed transfer (SdoCommunicationError is accepted), but a
+    transfer that reports success must have moved the right value: a read returns the value written last, a
+    write leaves exactly the encoding in the node. Afterwards the caller repeats the op undisturbed."""
+    import canopen
+    la = op["late"]
+    e2 = ent[la["e2"] % len(ent)]
+    index, sub, dt = e[0], e[1], e[5]
+    i2, s2, dt2 = e2[0], e2[1], e2[5]
+    tag = f"{tag} [late answer of {'write' if la.get('w') else 'read'} {i2:04x}:{s2:02x} at request {la['at']}]"
+    slow_write = bool(la.get("w")) or (i2, s2) not in last
+    disturbed_write = (index, sub) not in last or bool(la.get("dw"))
+    if (i2, s2) == (index, sub) and (slow_write or disturbed_write):
+        # an old answer for the very same object cannot be told from a new one (SDO has no sequence numbers)
+        return
+    rv = get_var(remote.sdo, e, op["path"])
+    rv2 = get_var(remote.sdo, e2, "index")
+    lv2 = get_var(local.sdo, e2, "index")
+    v2 = val(la.get("v2"))
+    held = []
+    rsp_id = 0x580 + nid
+
+    def hold(fr, hub_):
+        if fr.can_id == rsp_id:
+            held.append(bytes(fr.data))
+            return []
+        return [fr]
+
+    # 1. the slow request: its answer is kept back, the client times out (nothing can arrive: no race)
+    keep = remote.sdo.RESPONSE_TIMEOUT
+    hub.filter = hold
+    remote.sdo.RESPONSE_TIMEOUT = 0.002
+    try:
+        if slow_write:
+            rv2.raw = v2
+        else:
+            rv2.raw
+    except canopen.SdoCommunicationError:
+        pass
+    finally:
+        hub.filter = None
+        remote.sdo.RESPONSE_TIMEOUT = keep
+    if slow_write:
+        last.pop((i2, s2), None)     # whether the node took the value is not pinned by anything
+    # 2. the next op on another object; the late answer arrives right after its `at`-th request has been
+    #    prepared (stale answers were discarded) and before the real answer
+    state = {"n": 0}
+
+    def release():
+        frames, held[:] = list(held), []
+        for data in frames:
+            hub.inject(Frame(rsp_id, data))
+
+    def before_send(can_id):
+        if can_id == 0x600 + nid:
+            state["n"] += 1
+            if state["n"] == la["at"]:
+                release()
+
+    net_c.before_send = before_send
+    try:
+        if disturbed_write:
+            try:
+                rv.raw = v
+            except canopen.SdoCommunicationError:
+                last.pop((index, sub), None)
+            else:
+                stored = local.data_store.get(index, {}).get(sub)
+                if not stored_ok(dt, v, stored):
+                    D.append(Discrepancy("C03/late-answer/stored-bytes",
+                                         f"{tag}: write of {rc.NAMES[dt]} {v!r} reported success, local node holds "
+                                         f"{bytes(stored).hex() if stored is not None else None} want {want_hex(dt, v)}"))
+                    return
+                last[(index, sub)] = (e, op["path"], v)
+        if (index, sub) in last:
+            want = last[(index, sub)][2]
+            try:
+                back = rv.raw
+            except canopen.SdoCommunicationError:
+                pass
+            except Exception as ex:
+                # e.g. the codec choking on another object's bytes
+                D.append(Discrepancy("C03/late-answer/read-raises",
+                                     f"{tag}: {rc.NAMES[dt]} written last {want!r}: {type(ex).__name__}: {ex} "
+                                     f"({i2:04x}:{s2:02x} was the object of the late answer)"))
+                return
+            else:
+                if not _same(dt, back, want):
+                    D.append(Discrepancy("C03/late-answer/remote-readback",
+                                         f"{tag}: {rc.NAMES[dt]} written last {want!r}, the read returns {back!r} "
+                                         f"({i2:04x}:{s2:02x} was the object of the late answer)"))
+                    return
+    finally:
+        net_c.before_send = None
+        release()       # not reached: the answer arrives while the client is idle
+    # 3. the object of the slow write is settled again, undisturbed
+    if slow_write:
+        check_value(tag + " afterwards", dt2, v2, rv2, lv2, local, i2, s2, D)
+        if not D:
+            last[(i2, s2)] = (e2, "index", v2)
+
+
 def final_sweep(tag, remote, local, last, D, before_read=None):
     """Every entry still holds the value written to it last - also after later writes to
     other entries (e.g. other members of the same record)."""
@@ -390,6 +511,8 @@ def run_case(case) -> Outcome:
             if op.get("partial") is not None:
                 nontrivial = True
                 continue
+            if op.get("late"):
+                nontrivial = True
             dt = ent[op["e"] % len(ent)][5]
             v = val(op["v"])
             if dt in rc.INTEGERS:
@@ -475,6 +598,10 @@ def run_case(case) -> Outcome:
             try:
                 rv = get_var(remote.sdo, e, op["path"])
                 lv = get_var(local.sdo, e, op["path"])
+                if mode == "inline" and not shared and op.get("late"):
+                    late_answer(hub, net_c, remote, local, ent, e, op, v, nid, last, tag, local_D)
+                    if local_D:
+                        break
                 if shared and (index, sub) not in last:
                     # nothing was written to this entry of THIS node yet: it must answer like a node that was
                     # never written to at all, whatever the other nodes have received meanwhile
@@ -605,6 +732,8 @@ def run_case(case) -> Outcome:
     if timeouts and mode in ("dispatcher",):
         raise RuntimeError(f"inconclusive: time-out in a threaded mode: {timeouts[0]}")
     klass = f"{mode}{'-deferred' if mode == 'baton' and case.get('deferred') else ''}/{len(threads)}thr"
+    if mode == "inline" and not shared and any(op.get("late") for th in threads for op in th["ops"]):
+        klass += "/late-answer"
     return Outcome(nontrivial, klass, D[:1])
 
 
@@ -807,6 +936,11 @@ def case_strategy(draw, modes):
                         "v": draw(value_strategy(dt))})
             if mode == "inline" and draw(st.integers(0, 4)) == 0:
                 _draw_stale(draw, ops[-1])
+            elif mode == "inline" and len(ent) > 1 and draw(st.integers(0, 4)) == 0:
+                # the answer to a request for another object comes too late and lands in this op's transfers
+                e2 = draw(st.integers(0, len(ent) - 1))
+                ops[-1]["late"] = {"e2": e2, "v2": draw(value_strategy(ent[e2][5])), "w": draw(st.booleans()),
+                                   "dw": draw(st.booleans()), "at": draw(st.sampled_from([1, 1, 1, 2, 2, 3, 5, 9]))}
             if draw(st.integers(0, 5)) == 0:
                 # abandon an upload of something written before, half-way
                 prev = draw(st.sampled_from([o_ for o_ in ops if "v" in o_]))
@@ -951,6 +1085,43 @@ def enum_concurrency(thorough):
 
 
 
+def enum_late(thorough):
+    """The answer to a request comes too late (the client timed out) and arrives during a later transfer for
+    another object: same sub-index / other index (plain variables), same index / other sub-index (members of
+    one record), both different; the slow request a read or a write; the late answer lands before the answer to
+    the 1st, 2nd, 3rd request of the later op (a read, or a write with its read-back). One history per group:
+    every object is written first, then disturbed again and again."""
+    od = typed_od()
+    ent = flat_entries(od)
+    top = lambda dt: [i for i, en in enumerate(ent) if en[5] == dt and en[4]][0]
+    mem = lambda dt: [i for i, en in enumerate(ent) if en[5] == dt and not en[4] and en[0] == 0x3000][0]
+    dts = [rc.UNSIGNED16, rc.UNSIGNED32, rc.INTEGER32, rc.REAL32, rc.VISIBLE_STRING, rc.DOMAIN]
+    if thorough:
+        dts = list(ALL_DTS)
+    groups = [[top(dt) for dt in dts], [mem(dt) for dt in dts],
+              [top(dts[0]), mem(dts[0]), top(dts[4 if not thorough else -1]), mem(dts[1])]]
+    for g, idxs in enumerate(groups):
+        setup = [{"e": i, "path": "index", "v": _some_value(ent[i][5], 3 + n)} for n, i in enumerate(idxs)]
+        pairs = [(a, b) for a in idxs for b in idxs if a != b]
+        if thorough and g < 2:
+            # every type next to its neighbours in the list, both directions, plus a stride over the rest
+            pairs = [(a, b) for n, a in enumerate(idxs) for m, b in enumerate(idxs)
+                     if a != b and (abs(n - m) <= 2 or (n + 2 * m) % 7 == 0)]
+        for w in (False, True):
+            for dw in (False, True):
+                for at in (1, 2, 3):
+                    if at == 3 and (w or dw) and not thorough:
+                        continue
+                    for c in range(0, len(pairs), 10):
+                        ops = list(setup)
+                        for n, (a, b) in enumerate(pairs[c:c + 10]):
+                            ops.append({"e": b, "path": PATHS[(n + at) % len(PATHS)],
+                                        "v": _some_value(ent[b][5], 5 + n + at),
+                                        "late": {"e2": a, "v2": _some_value(ent[a][5], 11 + n), "w": w, "dw": dw,
+                                                 "at": at}})
+                        yield {"od": od, "mode": "inline", "threads": [{"node": 5 + g, "ops": ops}]}
+
+
 def enum_cases(thorough):
     od = typed_od()
     ent = flat_entries(od)
@@ -1071,6 +1242,9 @@ def search(ctx):
     ctx.hypothesis(case_strategy(["baton"]), 1500 if thorough else 300, salt=2)
     ctx.enumerate(enum_cases(thorough), "type boundaries x access paths; dotted names; stray responses at every "
                                         "idle moment; 8/16-bit values; shared dictionary object")
+    ctx.enumerate(enum_late(thorough), "late answer of a timed-out request for another object arriving inside "
+                                       "a later transfer: object pairs x slow read/write x disturbed read/write x "
+                                       "position")
     ctx.hypothesis(case_strategy(["inline"]), 4000 if thorough else 1000, salt=1)
     ctx.hypothesis(case_strategy(["dispatcher"]), 300 if thorough else 40, salt=3)
     ctx.hypothesis(case_strategy(["virtual"]), 150 if thorough else 20, salt=4)
